@@ -1,8 +1,11 @@
 (* Property C09 - a node never hands out work it would reject; the mempool stays mineable.  Statements only.
    Model: Model/Mempool.v ([legacy = false] = the code as it is, after the repairs R11a, R11b, R11c, R12; [legacy = true] =
    the code before them; both variants were compared with the corresponding Go build on the same scenarios). *)
-From Virel Require Import Lib.Config Lib.U64 Lib.AMap Model.Emission Model.Ledger Model.Node Model.Mempool
-  Proofs.Emission Proofs.Conservation Proofs.StakedSum Proofs.Mempool Proofs.Mempool2 Proofs.Mempool3 Proofs.Mempool4 Proofs.Mempool5 Proofs.Mempool6 Gen.Params.
+From Virel Require Import Lib.Config Lib.U64 Lib.AMap Model.Emission Model.Ledger Model.Node Model.Mempool Spec.Chain
+  Proofs.Emission Proofs.Conservation Proofs.StakedSum Proofs.Mempool Proofs.Mempool2 Proofs.Mempool3 Proofs.Mempool4 Proofs.Mempool5 Proofs.Mempool6
+  Proofs.ForkChoice Proofs.ChainInv Proofs.Refine2 Proofs.Replay2 Proofs.Replay3 Proofs.Replay4 Proofs.Replay5 Proofs.ChainExamples Proofs.Replay6
+  Proofs.KeyInv Proofs.NodeConservation Proofs.NodeConservationEx Gen.Params.
+From Virel Require Model.Des Model.Codec Spec.TxAbs Proofs.CodecBridge Proofs.CodecBridgeNode.
 Open Scope N_scope.
 
 (* ---- the full statement ---- *)
@@ -114,7 +117,8 @@ Proof. intros cfg. exact (conj (prevalidate_adm cfg) (packet_tx_mp_inv cfg)). Qe
 Print Assumptions C09_mempool_invariant.
 
 (* the ledger hypothesis [linv] holds of the empty ledger and is kept by ApplyTxToState and by ApplyBlockToState (staker
-   rewards included) as long as no transaction registers delegate 0; the undo direction is not treated *)
+   rewards included) as long as no transaction registers delegate 0.  The undo direction (RemoveBlockFromState) is not
+   treated operation by operation; it is covered for every ledger that occurs by C09_linv_reachable below. *)
 Theorem C09_linv_kept : forall cfg ga, cfg_ok_emission cfg = true ->
   linv ledger0 /\
   (forall l t h bh th l', linv l -> tx_good cfg t -> apply_tx cfg l t h bh th = Ok l' -> linv l') /\
@@ -137,10 +141,73 @@ Theorem C09_simulation_sound_nonvacuous :
 Proof. exact all_kinds_nonvacuous. Qed.
 Print Assumptions C09_simulation_sound_nonvacuous.
 
-(* STILL NOT PROVED (correspondence run only): that [linv] and [mp_inv] hold in every reachable state of the wrapped node
-   ([linv] is proved to be kept by block application, not by block removal; [mp_inv] is proved for TX packets only, not
-   for the re-adding of transactions by RemoveBlockFromState); the side-block, stake-signature and coinbase clauses for
-   a completed template; C09_full itself is refuted (above).
+(* [linv] ACROSS REMOVAL: PROVED FOR EVERY REACHABLE LEDGER.  For every state n of the node reachable from genesis by any
+   sequence of deliveries - reorganisations, i.e. RemoveBlockFromState with its re-insertion of emptied funds from the
+   delegate history and its restoration of saved pool records, included - [linv (ldg n)] holds: the staked-sum invariant,
+   no owner with two funds in one pool, no record under delegate id 0.  Premises: those of C03_ledger_is_replay
+   (Props/C03.v) and that the genesis block registers no delegate 0 (it has no transactions).
+   Route (Proofs/NodeConservation.v): the delegate table and the staked total of the node's ledger are EQUAL to those of
+   the replay of its main chain from genesis (C03: what an undo reads from the delegate history is what the matching
+   application wrote, Proofs/Replay2.v RInv); the replay is a pure application, for which SInv / one fund per owner
+   (Proofs/Undo4.v: PInv along chains) and "no record under id 0" (Proofs/KeyInv.v: ZInv; every block of the main chain
+   passed Transaction.Prevalidate, which refuses the registration of delegate 0, code 208) hold.  No condition on the
+   version byte beyond the one of C03 is needed (C09_linv_kept asks for tx_good, which excludes the version-0 transfers
+   of the first heights; this theorem does not).
+   The statement is about reachable ledgers, not about RemoveBlockFromState on an arbitrary ledger satisfying [linv]:
+   RemovePosReward puts back whatever record the delegate history holds under the block hash, so the operation-level
+   statement is FALSE without an invariant on the delegate history (C09_linv_remove_reward_needs_history below: a history
+   entry listing one owner twice) - that invariant is what RInv carries for reachable ledgers. *)
+Theorem C09_linv_reachable : forall cfg genesis_addr team_key g n0 ops,
+  cfg_ok_emission cfg = true -> cfg_ok_feepos cfg = true ->
+  node0 cfg genesis_addr g = Ok n0 -> b_height g = 0 -> b_cd g = b_diff g ->
+  N.of_nat (length ops) < two64 - 1 ->
+  Forall (tx_c cfg) (b_txs g) -> Forall (fun t => forall nl nm, tx_data t <> TRegister nl nm 0) (b_txs g) ->
+  (forall h b, get_block (run cfg genesis_addr team_key n0 ops) h = Some b ->
+     Forall (fun t => wf_tx cfg t /\ ver_ok t = true) (b_txs b)) ->
+  (forall bs, up (b_hash g) (blocks (run cfg genesis_addr team_key n0 ops)) (b_hash g) bs ->
+     NoDup (bkeys g ++ flat_map bkeys bs) /\ c0 g + bnouts bs < two64 /\ c0 g + bntx bs < two64) ->
+  linv (ldg (run cfg genesis_addr team_key n0 ops)).
+Proof. exact reachable_linv. Qed.
+Print Assumptions C09_linv_reachable.
+
+(* the same with the typing premise discharged from the byte-level decoder model (as C03_ledger_is_replay_decoded) *)
+Theorem C09_linv_reachable_decoded :
+  forall (txid_of key_id addr_id name_id : list N -> N) (sig_by : Model.Codec.tx -> N) (sig_msg : Model.Codec.tx -> bool)
+         (signer_invalid : list N -> bool) cfg genesis_addr team_key g n0 ops,
+  cfg_ok_emission cfg = true -> cfg_ok_feepos cfg = true -> CodecBridge.cfg_ok_burn cfg = true ->
+  node0 cfg genesis_addr g = Ok n0 -> b_height g = 0 -> b_cd g = b_diff g ->
+  N.of_nat (length ops) < two64 - 1 ->
+  Forall (tx_c cfg) (b_txs g) ->
+  (forall h b, get_block (run cfg genesis_addr team_key n0 ops) h = Some b -> h <> b_hash g ->
+     Forall (fun x => exists hv bs t,
+               Model.Des.result_of (Model.Des.run (Model.Codec.dec_tx cfg hv) bs) = Model.Des.ROk t /\
+               x = TxAbs.abs_tx txid_of key_id addr_id name_id sig_by sig_msg signer_invalid t) (b_txs b)) ->
+  (forall bs, up (b_hash g) (blocks (run cfg genesis_addr team_key n0 ops)) (b_hash g) bs ->
+     NoDup (bkeys g ++ flat_map bkeys bs) /\ c0 g + bnouts bs < two64 /\ c0 g + bntx bs < two64) ->
+  Forall (fun t => forall nl nm, tx_data t <> TRegister nl nm 0) (b_txs g) ->
+  linv (ldg (run cfg genesis_addr team_key n0 ops)).
+Proof. exact reachable_linv_decoded. Qed.
+Print Assumptions C09_linv_reachable_decoded.
+
+(* a ledger with [linv] whose delegate-history entry under the block hash is not the one ApplyPosReward wrote: undoing
+   the staker reward yields a pool with two funds of one owner (the staked total still matches) *)
+Theorem C09_linv_remove_reward_needs_history :
+  linv hist_wit /\ remove_pos_reward hist_wit 99 hist_wit_out = Ok hist_wit' /\
+  SInv hist_wit' /\ ~ fnodup hist_wit'.
+Proof. exact remove_reward_needs_history. Qed.
+Print Assumptions C09_linv_remove_reward_needs_history.
+
+(* non-vacuity: the premises hold together for the reorganising history of Proofs/ChainExamples.v *)
+Theorem C09_linv_reachable_example :
+  let n := run cfg_verifnet 7 0 ex_n0 sr_ops in
+  top_h n = 2 /\ map b_hash (mchain n) = [4; 6] /\ linv (ldg n).
+Proof. exact reachable_example_linv. Qed.
+Print Assumptions C09_linv_reachable_example.
+
+(* STILL NOT PROVED (correspondence run only): that [mp_inv] holds in every reachable state of the wrapped node ([mp_inv]
+   is proved for TX packets only, not for the re-adding of transactions by RemoveBlockFromState); that
+   staked + sum of balances < 2^64 in every reachable ledger (each of the two is: Props/C01.v); the side-block,
+   stake-signature and coinbase clauses for a completed template; C09_full itself is refuted (above).
    OBSERVATION, outside the property (which asks for soundness only): the simulation is not complete.  While an unstake
    that empties a fund is pending, validateMempoolTx refuses a change of delegate (925) and a stake naming another
    prev_unlock than the emptied fund's (916) of the same signer, which the ledger would apply after the unstake: the
